@@ -260,3 +260,28 @@ PROPS["C15"] = dict(
     level_note="Host header construction is the stdlib's (assumed).",
     technique="contract-based deductive verification (site obligation with string VCs, z3) + bounded URL-to-wire sweep on an in-memory network",
 )
+
+PROPS["C03"] = dict(
+    contracts=["stdlib", "util_timeout", "util_retry", "util_url", "connectionpool", "response"], bounded=["c03"], level="other", trusted_base=COMMON_TRUSTED,
+    assumptions=["http.client's request/response state machine and TCP ordering (assumed)", "the poll on an idle socket (wait_for_read) truthfully reports pending bytes / EOF (simulated by the in-memory socket)"] + _RESP_ASSUME,
+    not_decided=["the urllib3-owned invariant is strictly weaker than the property; the gap is the assumed http.client state machine"],
+    explanation="(1) PROVED (shared with C13/C01): on every unclean exit of _raw_read/_error_catcher the connection and the original response are closed before the lease is released; release_conn returns a held lease exactly once; "
+                "urlopen discards (closes, replaces by a placeholder) the connection on every translated error. (2) BOUNDED: all pairs of (8 server behaviours x 7 caller disposals) on pools of size 1-2 and seeded longer sequences through the real pool / "
+                "http.client on the in-memory network: every delivered body is a prefix of that request's own body.",
+    level_text="Bounded request-sequence contract through the real code (exhaustive for pairs of steps) + the error-exit obligations of the body reader; not a proof of the cross-request invariant.",
+    level_note="Rests on the assumed http.client state machine.",
+    technique="bounded request-sequence contract on an in-memory network + deductive error-exit obligations (VCs from the real AST, z3)",
+)
+PROPS["C02"] = dict(
+    contracts=["stdlib", "util_timeout", "util_retry", "util_url", "connectionpool", "response"], extra=["extra.c02_order.check"], bounded=["c02"], level="other", trusted_base=COMMON_TRUSTED,
+    assumptions=["queue.LifoQueue is linearizable (assumed)", "attribute reads/writes are atomic under the GIL (assumed)"],
+    not_decided=["eventual completion, deadlock freedom, lost wake-ups (liveness inside queue.LifoQueue): not decidable by contracts here",
+                 "sockets closed after the pool object is dropped (weakref finalizer / GC): not decided",
+                 "a rely/guarantee re-verification of _get_conn/_put_conn with `self.pool` volatile (DESIGN section 5 C02) is not built; interleavings are covered only by ordering obligations + seeded thread runs"],
+    explanation="(1) Ordering obligations recomputed from the real AST (discharged by evaluation): close() clears self.pool before it starts draining the old queue (so a racing checkout sees a closed pool, not a drained queue it would block on); "
+                "_close_pool_connections drains until queue.Empty (its loop is not cut short by an empty placeholder). (2) PROVED (shared with C01): release_conn returns a lease exactly once. (3) BOUNDED: close() over every queue content "
+                "of 1-3 slots; seeded real-thread runs (exclusive use of sockets, own responses, only pool errors, no hang within 20 s, block=True bound).",
+    level_text="Ordering obligations (syntactic) + bounded sequential/threaded contract checks; the concurrency clauses are NOT proved (no rely/guarantee proof was built) and the liveness clauses are not decidable here.",
+    level_note="Known observation D10 (log argument self.pool.qsize() after a racing close() can raise AttributeError in _put_conn) is not exercised by the thread sample; it is described in DESIGN.md and not claimed either way.",
+    technique="syntactic ordering obligations over the real AST + bounded sequential and seeded thread checks",
+)
